@@ -39,6 +39,10 @@ const (
 	rwInject   = "err-inject"
 	rwClear    = "err-clear"
 	rwCtx      = "replace-context"
+	// like err-inject, but the middleware sets the error IN PLACE on the
+	// Results slice its inner handler returned (Results.SetError) and returns
+	// that same slice
+	rwInjectInPlace = "err-inject-in-place"
 )
 
 // mwSpec describes one tracing middleware.
@@ -51,6 +55,9 @@ type mwSpec struct {
 	// Pad: error-rewriting middleware make their message / annotation this
 	// many bytes long (0 = short), to cover texts around and far above 256 bytes
 	Pad int `json:"error_text_bytes,omitempty"`
+	// BigRsp: the middleware adds a response header of this many bytes to the
+	// context of the call before passing it on
+	BigRsp int `json:"response_header_bytes,omitempty"`
 }
 
 // padTo extends s with filler up to n bytes.
@@ -120,6 +127,10 @@ func withCtx(vals, desc string) string { return vals + " ctx{" + desc + "}" }
 
 // passOn returns the arguments middleware mw hands to the next handler.
 func passOn(mw *mwSpec, method string, args frugal.Arguments) frugal.Arguments {
+	if mw.BigRsp > 0 && len(args) > 0 {
+		// server side: a large response header on the context of the call
+		args.Context().AddResponseHeader("x-big-"+mw.ID, strings.Repeat("r", mw.BigRsp))
+	}
 	switch {
 	case mw.RW == rwArg && len(args) > 0:
 		return append(frugal.Arguments{args[0]}, rwArgs(mw, method, []interface{}(args[1:]))...)
@@ -129,6 +140,18 @@ func passOn(mw *mwSpec, method string, args frugal.Arguments) frugal.Arguments {
 		return pass
 	}
 	return args
+}
+
+// handBack returns what middleware mw hands back for the results res of its
+// inner handler.
+func handBack(mw *mwSpec, method string, res frugal.Results) frugal.Results {
+	if mw.RW == rwInjectInPlace {
+		if len(res) > 0 && res.Error() == nil {
+			res.SetError(injected(mw, method))
+		}
+		return res
+	}
+	return frugal.Results(rwRes(mw, method, []interface{}(res)))
 }
 
 // mwErr is an error type of the monitor's own (client-side injections).
@@ -394,7 +417,7 @@ func rwRes(mw *mwSpec, method string, in []interface{}) []interface{} {
 		if err != nil {
 			out[last] = annotate(err, mw.ID, mw.Pad)
 		}
-	case rwInject:
+	case rwInject, rwInjectInPlace:
 		if err == nil {
 			out[last] = injected(mw, method)
 		}
